@@ -5,6 +5,7 @@ import Model.Tpm
 import Proofs.Monad
 import Proofs.Cose
 import Props.C07
+import Proofs.TpmRT
 namespace Webauthn.Props.C12
 open Webauthn Generated
 
@@ -122,5 +123,62 @@ theorem lenPrefixed_spec (pre x post : Bytes) (hx : x.length < 65536) :
   rw [show pre.length + 2 + x.length = pre.length + (0 + 1 + 1) + x.length from by omega]
   rw [show pre.length + 2 = pre.length + (0 + 1 + 1) from by omega]
   rw [h2]
+
+/-! ### whole structures: decode ∘ encode is the identity on the fields (closed form) -/
+
+/-- **TPMS_ATTEST** laid out per TPM 2.0 Part 2 §10.12.8 (magic, type, TPM2B qualifiedSigner, TPM2B
+extraData, TPMS_CLOCK_INFO, firmwareVersion, TPM2B name, TPM2B qualifiedName), every TPM2B of any size
+below 65536: decoding returns exactly the encoded fields -/
+theorem certinfo_exact (magic tyB qs extra clock : Bytes) (reset restart : Nat) (safe : UInt8)
+    (fw name qname : Bytes) (ty alg : String)
+    (hm : magic.length = 4) (ht : tyB.length = 2) (hty : tpmStMap.lookup tyB = some ty)
+    (hcert : ty = tpmStAttestCertify)
+    (hqs : qs.length < 65536) (hex : extra.length < 65536) (hc : clock.length = 8)
+    (hr : reset < 2 ^ 32) (hs : restart < 2 ^ 32) (hfw : fw.length = 8)
+    (hn : name.length < 65536) (hqn : qname.length < 65536)
+    (halg : tpmAlgMap.lookup (slice name 0 2) = some alg) :
+    parseCertInfo (encodeCertInfo magic tyB qs extra clock reset restart safe fw name qname) =
+      .ok { magic := magic, type := ty, qualifiedSigner := qs, extraData := extra,
+            clockInfo := { clock := clock, resetCount := reset, restartCount := restart, safe := safe != 0 },
+            firmwareVersion := fw,
+            attested := { nameAlg := alg, nameAlgBytes := slice name 0 2, name := name, qualifiedName := qname } } :=
+  parseCertInfo_encode magic tyB qs extra clock reset restart safe fw name qname ty alg hm ht hty hcert hqs hex hc hr hs
+    hfw hn hqn halg
+
+/-- **TPMT_PUBLIC, RSA** (§12.2.4 with TPMS_RSA_PARMS): every field, `unique` = the modulus -/
+theorem pubarea_rsa_exact (tyB naB : Bytes) (attrs : Nat) (authPolicy symB schB keyBits exponent modulus : Bytes)
+    (ty nameAlg sym sch : String)
+    (ht : tyB.length = 2) (hn : naB.length = 2) (ha : attrs < 2 ^ 32) (hap : authPolicy.length < 65536)
+    (hsy : symB.length = 2) (hsc : schB.length = 2) (hkb : keyBits.length = 2) (hex : exponent.length = 4)
+    (hmod : modulus.length < 65536)
+    (hty : tpmAlgMap.lookup tyB = some ty) (hrsa : ty = tpmAlgRsa) (hna : tpmAlgMap.lookup naB = some nameAlg)
+    (hsym : tpmAlgMap.lookup symB = some sym) (hsch : tpmAlgMap.lookup schB = some sch) :
+    parsePubArea (encodePubAreaRsa tyB naB attrs authPolicy symB schB keyBits exponent modulus) =
+      .ok { type := ty, nameAlg := nameAlg, objectAttributes := specAttributes attrs, authPolicy := authPolicy,
+            parameters := .rsa sym sch keyBits exponent, unique := modulus } := by
+  rw [parsePubArea_encode_rsa tyB naB attrs authPolicy symB schB keyBits exponent modulus ty nameAlg sym sch ht hn ha hap
+    hsy hsc hkb hex hmod hty hrsa hna hsym hsch, attributes]
+
+/-- **TPMT_PUBLIC, ECC** (TPMS_ECC_PARMS): every field, `unique` = x ‖ y for coordinates of any sizes -/
+theorem pubarea_ecc_exact (tyB naB : Bytes) (attrs : Nat) (authPolicy symB schB crvB kdfB x y : Bytes)
+    (ty nameAlg sym sch crv kdf : String)
+    (ht : tyB.length = 2) (hn : naB.length = 2) (ha : attrs < 2 ^ 32) (hap : authPolicy.length < 65536)
+    (hsy : symB.length = 2) (hsc : schB.length = 2) (hcr : crvB.length = 2) (hkd : kdfB.length = 2)
+    (hx : x.length < 65536) (hy : y.length < 65536)
+    (hty : tpmAlgMap.lookup tyB = some ty) (hecc : ty = tpmAlgEcc)
+    (hna : tpmAlgMap.lookup naB = some nameAlg)
+    (hsym : tpmAlgMap.lookup symB = some sym) (hsch : tpmAlgMap.lookup schB = some sch)
+    (hcrv : tpmEccCurveMap.lookup crvB = some crv) (hkdf : tpmAlgMap.lookup kdfB = some kdf) :
+    parsePubArea (encodePubAreaEcc tyB naB attrs authPolicy symB schB crvB kdfB x y) =
+      .ok { type := ty, nameAlg := nameAlg, objectAttributes := specAttributes attrs, authPolicy := authPolicy,
+            parameters := .ecc sym sch crv kdf, unique := x ++ y } := by
+  rw [parsePubArea_encode_ecc tyB naB attrs authPolicy symB schB crvB kdfB x y ty nameAlg sym sch crv kdf ht hn ha hap
+    hsy hsc hcr hkd hx hy hty hecc hna hsym hsch hcrv hkdf, attributes]
+
+/-- non-vacuity: the identifier hypotheses are met by the real tags (certify, RSA, ECC, SHA-256, NULL, P-256) -/
+example : tpmStMap.lookup [0x80, 0x17] = some tpmStAttestCertify ∧ tpmAlgMap.lookup [0x00, 0x01] = some tpmAlgRsa ∧
+    tpmAlgMap.lookup [0x00, 0x23] = some tpmAlgEcc ∧ (tpmAlgMap.lookup [0x00, 0x0b]).isSome = true ∧
+    (tpmAlgMap.lookup [0x00, 0x10]).isSome = true ∧ (tpmEccCurveMap.lookup [0x00, 0x03]).isSome = true := by
+  decide
 
 end Webauthn.Props.C12
